@@ -219,6 +219,26 @@ theorem rhctag_equal_interchangeable (a b x : RhcTag.Tag) (h : RhcTag.cmp a b = 
     RhcTag.cmp a x = RhcTag.cmp b x ∧ RhcTag.cmp x a = RhcTag.cmp x b :=
   ⟨rhctag_cmp_totalPre.congr_left h x, rhctag_cmp_totalPre.congr_right h x⟩
 
+/-- On the fragment of plain tags the projection `Version(min)` (either
+    bound) never inverts `Compare`: for two tags that are both `plain v` (same
+    optional `v` prefix; rpm tokens of the text before the first `-` are Major
+    then Minor or nothing; both below 2^31; no `:`), `a ≤ b` gives
+    `Version(a) ≤ Version(b)`.  (`_partial`: outside the fragment the
+    statement is false, see the three counterexamples below.) -/
+theorem rhctag_projection_monotone_partial (v : Bool) (a b : RhcTag.Tag) (min : Bool)
+    (ha : RhcTag.plain v a = true) (hb : RhcTag.plain v b = true) (h : RhcTag.cmp a b ≠ .gt) :
+    Version.cmp (RhcTag.project a min) (RhcTag.project b min) ≠ .gt :=
+  RhcTag.proj_mono v a b min ha hb h
+
+/-- The tags quoted in the package documentation are in the fragment. -/
+example : (do
+    let a ← RhcTag.parse "4.7-140.49a6fcf.release_4.7".toList
+    let b ← RhcTag.parse "4.8-167.9a9db5f.release_4.8".toList
+    let c ← RhcTag.parse "v4.6.0-202112140546.p0.g8b9da97.assembly.stream".toList
+    let d ← RhcTag.parse "v4.7.0-202112140553.p0.g091bb99.assembly.stream".toList
+    pure (RhcTag.plain false a && RhcTag.plain false b && RhcTag.plain true c && RhcTag.plain true d)) = some true := by
+  decide
+
 /-- The projection `Version(min)` can invert `Compare` (finding
     rhctag-projection-inverts): "v4.9.0-1" < "4.8.0-1" by the rpm comparison
     of the original texts (a letter is below a number), the projections are
